@@ -181,13 +181,13 @@ func (p *parser) on_parser_qualif(assoc Token, _ Token, prec Token, _ Token) *as
 		panic("not-reached")
 	}
 
+	// NUM is [0-9]+, so the only ways to go wrong are zero and a number that
+	// does not fit an int. Both are user errors, not internal ones.
 	var err error
 	q.Precedence, err = strconv.Atoi(string(prec.Str))
-	if err != nil {
-		panic(err)
-	}
-	if q.Precedence <= 0 {
-		panic("not-reached")
+	if err != nil || q.Precedence <= 0 {
+		p.errs.Errorf(prec.Pos, "invalid precedence %v: must be an integer greater than zero", string(prec.Str))
+		q.Precedence = 1
 	}
 
 	return q
